@@ -92,7 +92,7 @@ def walk_fields(doc, super_types):
             else:
                 fr = frags[s["name"]]
                 rec(fr["sel"], fr["on"], root)
-    rec(doc["sel"], "Query", None)
+    rec(doc["sel"], "Mutation" if doc.get("op") == "mutation" else "Query", None)
     return out
 
 
@@ -166,19 +166,37 @@ def generate(ctx, entries, quick):
                                  timeout=2400, deadlock=False, tag="gen-sim-deep")))
     out = {e["name"]: {"bfs": {}, "sim": {}} for e in entries}
 
+    keep = 4 * (260 if quick else 5000)      # per entry and job: enough for the replay sample, bounds the memory
+
     def one(job):
         kind, kw = job
         r = ctx.tlc("fed", "Gen_C01", "Gen_C01.cfg", **kw)
         if not r.ok:
             print(r.out[-3000:])
             raise lib.Inconclusive("generator failed (%s): %s" % (kind, r.error))
-        return kind, r.printed
+        by_entry = {}
+        for c in r.printed:
+            c["id"] = lib.sha([c["entry"], c["doc"], c["vars"]])[:14]
+            by_entry.setdefault(c["entry"], []).append(c)
+        total = {k: len(v) for k, v in by_entry.items()}
+        jr = random.Random(ctx.seed * 7919 + len(kind))
+        out_cases = []
+        for name in sorted(by_entry):
+            v = sorted(by_entry[name], key=lambda c: c["id"])     # TLC's print order depends on its worker threads
+            if len(v) > keep:
+                v = jr.sample(v, keep)
+            out_cases += v
+        return kind, out_cases, total
 
+    gen_total = {e["name"]: {"bfs": 0, "sim": 0} for e in entries}
     with concurrent.futures.ThreadPoolExecutor(max_workers=4) as ex:
-        for kind, printed in ex.map(one, jobs):
+        for kind, printed, total in ex.map(one, jobs):
+            for name, n in total.items():
+                gen_total[name][kind] += n
             for c in printed:
-                c["id"] = lib.sha([c["entry"], c["doc"], c["vars"]])[:14]
                 out[c["entry"]][kind].setdefault(c["id"], c)
+    for name in out:
+        out[name]["generated"] = gen_total[name]
     return out
 
 
@@ -336,18 +354,18 @@ def decide_and_validate(ctx, cases_by_id, results, entry_index, entries, quick, 
         # line itself for every flagged one and for a seed-selected sample (25 %)
         if (r["id"], r["u"]) in flagged or rng.random() < CASE_LINE_SAMPLE:
             judged.add((r["id"], r["u"]))
-            lines.append({"k": "c", "id": r["id"], "e": e, "u": r["u"] + 1, "sg": 0, "doc": c["doc"], "vars": c["vars"],
+            lines.append({"k": "c", "id": r["id"], "e": e, "u": r["u"] + 1, "sg": 0, "seq0": 0, "doc": c["doc"], "vars": c["vars"],
                           "data": r["data"], "err": r["hasErrors"]})
             meta.append(("c", r, None))
         for x in r["exchanges"]:
             if x.get("invalid") or x.get("doc") is None:
                 continue
-            h = lib.sha([r["entry"], r["u"], x["sg"], x["query"], x["vars"], x["resp"]])
+            h = lib.sha([r["entry"], r["u"], x["sg"], x["query"], x["vars"], x["resp"], x.get("seq0", 0)])
             if h in seen:
                 continue
             seen.add(h)
-            lines.append({"k": "x", "id": r["id"], "e": e, "u": r["u"] + 1, "sg": x["sg"] + 1, "doc": x["doc"], "vars": x["binds"],
-                          "data": x["data"], "err": x["hasErr"]})
+            lines.append({"k": "x", "id": r["id"], "e": e, "u": r["u"] + 1, "sg": x["sg"] + 1, "seq0": x.get("seq0", 0), "doc": x["doc"],
+                          "vars": x["binds"], "data": x["data"], "err": x["hasErr"]})
             meta.append(("x", r, x))
     ok_lines = [lines[i] for i in range(len(lines)) if meta[i][0] == "x" or (meta[i][1]["id"], meta[i][1]["u"]) not in flagged]
     nchunks = max(1, min(4 if quick else 8, len(lines) // 300))
@@ -406,16 +424,17 @@ def run_driver(ctx, binary, catalog_path, cases, tag):
 
 
 def load_findings_fragment(ctx):
-    """findings.d/C01.json is this check's own fragment of known-findings.json (merged by the coordinator); read it
-    directly as well so that the check behaves the same before and after the merge."""
-    frag = os.path.join(lib.VERIF, "findings.d", "C01.json")
+    """findings.d/C01.json is this check's own fragment of known-findings.json (merged by the coordinator) and the
+    source of truth for property C01: its entries replace same-key entries of known-findings.json, so the check behaves
+    the same before and after a merge / a status change. C01_FINDINGS=<file> selects another fragment (used to verify
+    fixes: findings.d/C01.json.after-fix against a fixed worktree)."""
+    frag = os.environ.get("C01_FINDINGS") or os.path.join(lib.VERIF, "findings.d", "C01.json")
     known = list(ctx.known())
-    have = {(k.get("property"), k.get("key")) for k in known}
     if os.path.exists(frag):
         with open(frag) as f:
-            for k in json.load(f):
-                if (k.get("property"), k.get("key")) not in have:
-                    known.append(k)
+            mine = json.load(f)
+        keys = {(k.get("property"), k.get("key")) for k in mine}
+        known = [k for k in known if (k.get("property"), k.get("key")) not in keys] + mine
     ctx._known = known
 
 
@@ -459,22 +478,23 @@ def run(ctx):
     stats = {"pinned": len(pinned)}
     for e in entries:
         g = gen[e["name"]]
-        bfs = list(g["bfs"].values())
+        bfs = sorted(g["bfs"].values(), key=lambda c: c["id"])
         have = {c["id"] for c in pinned}
         bfs = [c for c in bfs if c["id"] not in have]
-        sim = [c for cid, c in g["sim"].items() if cid not in g["bfs"] and cid not in have]
+        sim = sorted((c for cid, c in g["sim"].items() if cid not in g["bfs"] and cid not in have), key=lambda c: c["id"])
         nb, ns = len(bfs), len(sim)
         rng.shuffle(bfs)
         rng.shuffle(sim)
         cap = 260 if quick else 5000
         bfs = bfs[:cap]
         sim = sim[:cap]
-        stats[e["name"]] = {"bfs_generated": nb, "sim_generated": ns, "replayed": len(bfs) + len(sim)}
+        stats[e["name"]] = {"bfs_generated": g["generated"]["bfs"], "sim_generated": g["generated"]["sim"], "distinct_kept": nb + ns,
+                            "replayed": len(bfs) + len(sim)}
         cases += bfs + sim
     ctx.log("cases: %s" % json.dumps(stats))
     cases_by_id = {c["id"]: c for c in cases}
     # ---- 2b. the nondeterministic model on a seed-selected sample of the GENERATED operations -------------------
-    pool = [c for c in cases if c["id"] not in {p["id"] for p in pinned}]
+    pool = [c for c in cases if c["id"] not in {p["id"] for p in pinned} and c["doc"].get("op", "query") == "query"]
     rng2 = random.Random(ctx.seed + 17)
     rng2.shuffle(pool)
     per, ops = {}, []
@@ -519,5 +539,6 @@ def run(ctx):
         "fedcfg writes the planner metadata cosmo composition would write (calibrated on 4 shipped router configs)",
         "consistent universes: unique keys, key and @requires inputs well-typed; the value of a @requires field is a digest of its inputs",
         "gqlparser is trusted as text->AST converter; the Go simulator is NOT trusted (every distinct answer is re-derived by TLC)",
-        "out of scope: @interfaceObject, entity interfaces, @override, @inaccessible, mutations, subscriptions, gRPC subgraphs, enums/input objects/custom scalars",
+        "out of scope: @interfaceObject / entity interfaces (metadata rule not calibratable from the shipped configs), @override, @inaccessible on "
+        "types and enum values, input coercion corner cases, subscriptions, gRPC subgraphs, @defer",
     ]
